@@ -490,7 +490,52 @@ impl DocLike for identity_iota_core::IotaDocument {
   }
 }
 
+/// `qstr <hex query> <hex did> <hex fragment>`: does the query STRING select the method `<did>#<fragment>` (and the service of
+/// that id)?  The identifier is given by its parts; the query is an arbitrary string.  Compared with the string-level model of
+/// `DIDUrlQuery` (IdModel/Doc/QueryStr.lean).  Oracle: a bare fragment (no `#`, not starting with `did:`) equal to the
+/// identifier's fragment must select it, and so must `#fragment` and the identifier's own string.
+fn qstr(args: &[&str]) -> String {
+  use crate::rng::unhex;
+  let (Some(q), Some(d), Some(f)) = (unhex(args[0]).and_then(|b| String::from_utf8(b).ok()), unhex(args[1]).and_then(|b| String::from_utf8(b).ok()), unhex(args[2]).and_then(|b| String::from_utf8(b).ok())) else {
+    return "bad-request".into();
+  };
+  if f.is_empty() {
+    return "bad-request".into();
+  }
+  let id = format!("{}#{}", d, f);
+  let (Ok(did), Ok(url)) = (CoreDID::parse(&d), DIDUrl::parse(&id)) else { return "bad-request".into() };
+  if url.fragment() != Some(f.as_str()) || url.did().as_str() != d {
+    return "bad-request".into();
+  }
+  let json = format!(
+    r#"{{"id":"{d}","verificationMethod":[{{"id":"{id}","controller":"{d}","type":"Ed25519VerificationKey2018","publicKeyMultibase":"z7"}}]}}"#,
+    d = d,
+    id = id
+  );
+  let json_s = format!(r#"{{"id":"{d}","service":[{{"id":"{id}","type":"T","serviceEndpoint":"https://a.example"}}]}}"#, d = d, id = id);
+  let (Ok(doc), Ok(doc_s)) = (CoreDocument::from_json(&json), CoreDocument::from_json(&json_s)) else { return "bad-request".into() };
+  let _ = did;
+  let m = doc.resolve_method(q.as_str(), None).is_some();
+  let sv = doc_s.resolve_service(q.as_str()).is_some();
+  let obs = if m { "match" } else { "nomatch" };
+  let mut fail: Option<String> = None;
+  if m != sv {
+    fail = Some(format!("query-forms-disagree:the query {:?} selects the method {} but not the service of that id, or the other way round", q, id));
+  }
+  let must = q == id || q == format!("#{}", f) || (q == f && !f.contains('#') && !f.starts_with("did:"));
+  if must && !m && fail.is_none() {
+    fail = Some(format!("fragment-query-not-resolved:the query {:?} does not select the method {}", q, id));
+  }
+  match fail {
+    Some(x) => format!("{}\t#FAIL:{}", obs, x),
+    None => obs.into(),
+  }
+}
+
 pub fn run(args: &[&str]) -> String {
+  if args.len() == 4 && args[0] == "qstr" {
+    return qstr(&args[1..]);
+  }
   if args.len() < 2 || args[0] != "hist" {
     return "bad-request".into();
   }
@@ -738,6 +783,41 @@ fn random_op(r: &mut Rng) -> String {
 
 pub fn gen(thorough: bool, seed: u64, out: &mut impl Write) {
   let mut r = Rng::new(seed ^ 0xC04);
+  // (q) query STRINGS against identifiers: every form of query (own string, with path / query parts, `#fragment`, the bare
+  // fragment, another DID, prefixes, relative URLs, junk) x DIDs that are prefixes of one another or of another method x
+  // fragments that look like DIDs, start with the letters d-i-d, differ in case
+  {
+    use crate::rng::hex;
+    let dids = ["did:ex:d0", "did:ex:d00", "did:alt:d0", "did:ex:D0"];
+    let frags = ["k1", "k2", "did", "did-key", "didk", "did:k", "did:ex:d0", "K1", "k1%41", "a.b", "k1?x", "k1/y", "d"];
+    for d in dids {
+      for f in frags {
+        let mut qs: Vec<String> = vec![];
+        for d2 in dids {
+          for pq in ["", "/p", "?q=1", "/p?q=1#x", "/"] {
+            for f2 in [f, "k1", ""] {
+              qs.push(if f2.is_empty() { format!("{}{}", d2, pq) } else { format!("{}{}#{}", d2, pq, f2) });
+            }
+          }
+        }
+        for f2 in frags {
+          qs.push(f2.to_string());
+          qs.push(format!("#{}", f2));
+          qs.push(format!("/p#{}", f2));
+          qs.push(format!("?q#{}", f2));
+          qs.push(format!("x#{}", f2));
+          qs.push(format!("{}#", f2));
+          qs.push(format!("{}#{}", f2, f2));
+        }
+        qs.extend(["", "#", "##", "did", "did:", "did:#", "did#k1", "DID:ex:d0#k1", " #k1", "#k1 "].iter().map(|s| s.to_string()));
+        for (i, q) in qs.iter().enumerate() {
+          if thorough || i % 2 == 0 || q.len() < 12 {
+            writeln!(out, "C04 qstr {} {} {}", hex(q.as_bytes()), hex(d.as_bytes()), hex(f.as_bytes())).unwrap();
+          }
+        }
+      }
+    }
+  }
   let fixed = fixed_specs();
   // (a) the gate alone, on fixed and random collections, through JSON and through the builder
   for s in &fixed {
